@@ -142,6 +142,16 @@ CHECKS = {
         "without delays bitwise.",
         "tiny connections (2->2, 2, conv 1x3 kernel (1,2)); histories ride the batch dimension; float tolerance 1e-5",
     ),
+    "C17": (
+        "model_checking", "DESIGN.md §3 C17",
+        "exhaustive boolean input histories (as batch) through every layer topology, differential against a manual composition of "
+        "identically parameterised components; clear() at every position followed by a replay against a fresh layer",
+        "Serial (2 synapses x delays x transform x 2 neurons), Biclique (6 combine modes x transforms, two connections into two neuron "
+        "groups) and RecurrentSerial (trainable feedback x transforms) are stepped on all 4^T boolean histories (T=4 quick, 6 thorough) and "
+        "compared bitwise, output shapes included, with neuron(transform(connection(x))) style manual compositions; clear() at every "
+        "position must succeed, keep parameters/adaptations and make a replay indistinguishable from a fresh layer.",
+        "in-size 2 components; histories ride the batch dimension (relies on nothing that C11 does not check separately)",
+    ),
 }
 
 PENDING_REASON = "check not built yet in this session (claimed in DESIGN.md; will move to checks when its exploration exists)"
